@@ -66,6 +66,8 @@ fn make_token(ctx: &Ctx, r: &mut Rng, alg: Alg, fmt: Fmt, key_idx: usize, iss: &
     let mut h = api::holder_new(&sd, fmt).ok()?;
     let pres = api::present(&mut h, &sel, kb.as_ref()).ok()?;
     let parts = Parts::parse(fmt, &pres).ok()?;
+    tamper::segments(&parts.jwt)?;
+    parts.payload().ok()?;
     let _ = ctx;
     Some(Token {
         alg,
